@@ -224,66 +224,70 @@ Proof. exact (rs_transfer_junk_independent eps_strong eps_trunc dt A j1 j2). Qed
 Print Assumptions C04_rs_transfer_junk_independent.
 
 (* ---------------------------------------------------------------- 5. pointwise aggregates / lifting *)
-(* the part that holds by construction: the b unknowns of node ip get ids b*pw_id(ip)+k, and they are
+(* by construction: the b unknowns of node ip get ids b*pw_id(ip)+k, and they are
    negative exactly for removed nodes -- "the unknowns of one grid node travel together" *)
-Theorem C04_pointwise_ids_travel_together_partial b (pwid : list Z) ip k :
+Theorem C04_pointwise_ids_travel_together b (pwid : list Z) ip k :
   0 < b -> ip < length pwid -> k < b ->
   nth (ip * b + k) (expand_ids b pwid) removed = (Z.of_nat b * nth ip pwid removed + Z.of_nat k)%Z /\
   ((nth ip pwid removed < 0)%Z <-> (nth (ip * b + k) (expand_ids b pwid) removed < 0)%Z).
 Proof.
   intros Hb Hip Hk. split; [exact (expand_ids_nth b pwid ip k Hip Hk) | exact (expand_ids_negative b pwid ip k Hb Hip Hk)].
 Qed.
-Print Assumptions C04_pointwise_ids_travel_together_partial.
+Print Assumptions C04_pointwise_ids_travel_together.
 
-(* FULL STATEMENT (unproved -- it is FALSE for the code as it is, see the refutation below):
-     forall (A : crs S) eps2 b junk junk', 1 < b -> wf A = true -> ncols A = nrows A ->
-       pointwise_aggregates eps2 b 0 (kron_id b A) junk
-         = lifted_aggregates b (plain_aggregates eps2 A junk')
-   i.e. coarsening A (x) I_b with block_size b gives the lifted scalar aggregates and strong
-   flags (and hence the lifted smoothed P).
-   Causes in the code (both modelled as they are):
-   - backend::pointwise_matrix consumes the entry that ends the scan of a block column
-     (builtin.hpp: `c = A.col[beg++]` / `++beg` before the `c >= col_end` test), so that entry is
-     missing from the next block's maximum: every off-diagonal block of A (x) I_b reduces to 0;
-   - pointwise_aggregates.hpp:145 compares with (ia + k) after ia was advanced by block_size
-     in the id loop, so the diagonal entries are flagged strong and the entries in column
-     (ip+1)*b+k are never strong. *)
-Theorem C04_pointwise_lifting_refuted :
-  exists (A : crs QcS) (eps2 : QcS) (b : nat) (junk junk' : vec QcS),
-    1 < b /\ wf A = true /\ ncols A = nrows A /\
-    aggregates_eqb (pointwise_aggregates eps2 b 0 (kron_id b A) junk)
-                   (lifted_aggregates b (plain_aggregates eps2 A junk')) = false.
-Proof. exact pointwise_lifting_refuted. Qed.
-Print Assumptions C04_pointwise_lifting_refuted.
+(* pointwise_matrix (A (x) I_b, b) is the scalar pattern of A with the norms of its entries
+   (any S; rows of A sorted by column without duplicates).  pwm = the current code of
+   backend::pointwise_matrix (after /repo 2f75975), modelled in Aggregates.v. *)
+Theorem C04_pointwise_matrix_kronecker (S : Scalar) b (A : crs S) :
+  0 < b -> forallb sorted_strict (rows A) = true -> pwm (kron_id b A) b = Some (mabs A).
+Proof. exact (pwm_kron b A). Qed.
+Print Assumptions C04_pointwise_matrix_kronecker.
 
-(* the witness spelled out: 1-D Poisson on 2 points (x) I_2, eps_strong = 1/4 *)
-Theorem C04_pointwise_lifting_witness :
+(* LIFTING (any S): coarsening A (x) I_b with block_size b gives exactly the lifted aggregates
+   (count*b, ids b*id+k, every scalar row's strong flags repeated b times) of the scalar problem.
+   The scalar problem is mabs A -- the reduced matrix consists of block norms by design; as far
+   as strength of connection goes mabs A and A agree whenever the diagonal is positive.
+   Holds for the current code (/repo 2f75975 pointwise_matrix, 384f188 pointwise_aggregates); it was
+   refuted for the code before those commits (former finding C04-pointwise-lifting, witness
+   C04_pointwise_lifting_poisson below, then ids [-4,-3,0,1]). *)
+Theorem C04_pointwise_lifting (S : Scalar) eps2 b (A : crs S) junk :
+  1 < b -> forallb sorted_strict (rows A) = true ->
+  pointwise_aggregates eps2 b 0 (kron_id b A) junk
+  = lifted_aggregates b (plain_aggregates eps2 (mabs A) junk).
+Proof. exact (pointwise_lifting eps2 b A junk). Qed.
+Print Assumptions C04_pointwise_lifting.
+
+(* the former witness: 1-D Poisson on 2 points (x) I_2, eps_strong = 1/4 *)
+Theorem C04_pointwise_lifting_poisson :
+  pwm (kron_id 2 poisson1d_2) 2 = Some (mabs poisson1d_2) /\
   pointwise_aggregates (qc 1 16) 2 0 (kron_id 2 poisson1d_2) (repeat (qc 0 1) 4)
-    = AggOk 2 [-4; -3; 0; 1]%Z [[true; false]; [true; false]; [true; true]; [true; true]] /\
-  lifted_aggregates 2 (plain_aggregates (qc 1 16) poisson1d_2 (repeat (qc 0 1) 2))
+    = AggOk 2 [0; 1; 0; 1]%Z [[false; true]; [false; true]; [true; false]; [true; false]] /\
+  lifted_aggregates 2 (plain_aggregates (qc 1 16) (mabs poisson1d_2) (repeat (qc 0 1) 2))
     = AggOk 2 [0; 1; 0; 1]%Z [[false; true]; [false; true]; [true; false]; [true; false]].
-Proof. exact pointwise_lifting_witness. Qed.
-Print Assumptions C04_pointwise_lifting_witness.
+Proof. exact pointwise_lifting_poisson. Qed.
+Print Assumptions C04_pointwise_lifting_poisson.
+(* NOT PROVED (tested: ops kron_sa): the smoothed P of A (x) I_b equals P (x) I_b (lifted_sa). *)
 
-(* ---------------------------------------------------------------- 4b. Ruge-Stuben row sums with truncation *)
-(* FULL STATEMENT (unproved -- FALSE for the code as it is when an entry lies exactly on the
-   truncation threshold):
-     symmetric A, row i not 'C', zero row sum, a strong negative C neighbour, positive diagonal
-       => the row of P sums to one (with and without truncation rescaling).
-   Refutation: symmetric weighted path, eps_trunc = 1/2, entry -1/2 = eps_trunc * (-1):
-   ruge_stuben.hpp drops the entry (`Amin[i] <= v && v <= Amax[i]`) but leaves it out of the
-   rescaling sum (`Amin[i] < v`): the row of P sums to 2/3. *)
-Theorem C04_rs_row_sum_truncation_tie_refuted :
+(* ---------------------------------------------------------------- 4b. Ruge-Stuben row sums
+   FULL STATEMENT (unproved; needs the laws of an ordered field for abs/min/max -- tested by the
+   oracle o.rs_rowsum = rs_rowsum_ok on every implementation output):
+     row i not 'C', zero row sum, a strong negative C neighbour, one positive stored diagonal entry,
+     and (no truncation or eps_trunc < 1)  =>  the row of P sums to one.
+   Proved instance: the witness of the former finding C04-rs-truncation-tie (entry exactly on the
+   truncation threshold; fixed by /repo 8384831): the entry is dropped and the remaining weight is
+   rescaled, the row sums to one. *)
+Theorem C04_rs_truncation_tie_rescaled :
   is_symmetric rs_tie_A = true /\
   match rs_cf (qc 1 4) rs_tie_A (no_junk rs_tie_A), rs_transfer (qc 1 4) (qc 1 2) true rs_tie_A (no_junk rs_tie_A) with
   | Some (Sv, cf), TrOk P R =>
       rs_row_applicable rs_tie_A Sv cf 2 = true /\
-      seqb (row_sum (nth 2 (rows P) [])) (qc 2 3) = true /\
-      rs_rowsum_ok rs_tie_A Sv cf P = false
+      length (nth 2 (rows P) []) = 1%nat /\
+      seqb (row_sum (nth 2 (rows P) [])) (qc 1 1) = true /\
+      rs_rowsum_ok true (qc 1 2) rs_tie_A Sv cf P = true
   | _, _ => False
   end.
-Proof. exact rs_trunc_tie_refuted. Qed.
-Print Assumptions C04_rs_row_sum_truncation_tie_refuted.
+Proof. exact rs_trunc_tie_rescaled. Qed.
+Print Assumptions C04_rs_truncation_tie_rescaled.
 
 (* non-vacuity: a concrete matrix with a vanishing aggregate exercises the renumbering branch *)
 Example C04_nonvacuous_renumbering :
